@@ -120,6 +120,19 @@ Definition order_rows (o : ord) (desc : bool) (rows : table) : option table :=
   | OrdDyn => Some (if desc then isort kgtb rows else isort kltb rows)
   end.
 
+(** [limit %d offset %d] is printed from uint64 values.  An integer literal of
+    2^63 or more is a REAL to SQLite, which LIMIT and OFFSET refuse ("datatype
+    mismatch"); LIMIT 0 returns no row before OFFSET is looked at.  (Observed
+    on the real backend by the overflow stream of the C05 harness; outside the
+    range of the statement.) *)
+Definition int64_end : N := 9223372036854775808.
+
+Definition sql_window (off n : N) (rows : table) : option table :=
+  if int64_end <=? n then None
+  else if n =? 0 then Some []
+  else if int64_end <=? off then None
+  else Some (window off n rows).
+
 Definition exec (st : stmt) (desc : bool) (n off : N) (args : list bytes) (t : table) : xres :=
   match st, args with
   | SDeleteAll, [] => XAffected [] (lenN t)
@@ -169,7 +182,11 @@ Definition exec (st : stmt) (desc : bool) (n off : N) (args : list bytes) (t : t
       | Some rows =>
           match order_rows o desc rows with
           | None => XBad
-          | Some srt => XRows (if lim then window off n srt else srt)
+          | Some srt =>
+              match (if lim then sql_window off n srt else Some srt) with
+              | Some rows => XRows rows
+              | None => XBad
+              end
           end
       end
   | _, _ => XBad
